@@ -1116,7 +1116,14 @@ HELPER_STATEMENTS = {
     ("boltzmann.py", "BoltzmannSolver", "updateParticleList"): [
         "self.offEqParticles = offEqParticles"],
     ("polynomial.py", "Polynomial", "changeBasis"): [
-        "self.basis = newBasis",
+        # the label of every transformed axis becomes the requested one; an 'Array' axis is
+        # never transformed (either form leaves the collision array's 6 labels the same,
+        # since CollisionArray.changeBasis passes 'Array' for its Array axes)
+        ("self.basis = newBasis",
+         "self.basis = tuple(('Array' if old == 'Array' else new for (old, new) in "
+         "zip(self.basis, newBasis)))",
+         "self.basis = tuple(('Array' if old == 'Array' else new for old, new in "
+         "zip(self.basis, newBasis)))"),
         "x = self.grid.getCompactCoordinates(self.endpoints[i], self.direction[i])",
         "n = np.arange(2, self.grid.N + 1)", "n = np.arange(1, self.grid.N)",
         "restriction = 'full'", "restriction = 'partial'"],
@@ -1134,9 +1141,10 @@ def check_helpers(trees):
             if isinstance(n, ast.stmt):
                 have.add(U(n))
         for line in needed:
-            if line not in have:
+            alts = line if isinstance(line, tuple) else (line,)
+            if not any(a in have for a in alts):
                 raise TranslateError("%s %s.%s: statement not found: %s" % (
-                    fname, cname, mname, line))
+                    fname, cname, mname, alts[0]))
     cls = _find_class(trees["collisionArray.py"], "CollisionArray")
     for st in cls.body:
         if isinstance(st, ast.AnnAssign) and U(st.target) == "AXIS_TYPES":
